@@ -293,6 +293,17 @@ func TestVerifC11Adversarial(t *testing.T) {
 		inc := func(v *big.Int) *big.Int { return new(big.Int).Add(v, vfInt(1)) }
 		add("C_r", "C_r+1", func(p *ProofD) { p.NonRevocationProof.Cr = inc(p.NonRevocationProof.Cr) })
 		add("C_u", "C_u+1", func(p *ProofD) { p.NonRevocationProof.Cu = inc(p.NonRevocationProof.Cu) })
+		// (the commitments enter the challenge as integers: a representative of the same residue class is
+		// another proof)
+		for _, kk := range []int64{1, 2, 1000003} {
+			kk := kk
+			add("C_r", fmt.Sprintf("C_r+%d*n", kk), func(p *ProofD) {
+				p.NonRevocationProof.Cr = new(big.Int).Add(p.NonRevocationProof.Cr, new(big.Int).Mul(vfInt(kk), k.Pk.N))
+			})
+			add("C_u", fmt.Sprintf("C_u+%d*n", kk), func(p *ProofD) {
+				p.NonRevocationProof.Cu = new(big.Int).Add(p.NonRevocationProof.Cu, new(big.Int).Mul(vfInt(kk), k.Pk.N))
+			})
+		}
 		add("C_r", "C_r<->C_u", func(p *ProofD) {
 			p.NonRevocationProof.Cr, p.NonRevocationProof.Cu = p.NonRevocationProof.Cu, p.NonRevocationProof.Cr
 		})
